@@ -555,6 +555,12 @@ static int sbdf_skip_objects(FILE* f, sbdf_valuetype v, int c, int packed_array)
 				return err;
 			}
 
+			/* never move backwards: a negative size is corrupt input */
+			if (skip < 0)
+			{
+				return SBDF_ERROR_INVALID_SIZE;
+			}
+
 			if (fseek(f, skip, SEEK_CUR))
 			{
 				return SBDF_ERROR_IO;
@@ -567,6 +573,11 @@ static int sbdf_skip_objects(FILE* f, sbdf_valuetype v, int c, int packed_array)
 				if (err = sbdf_read_int32(f, &skip))
 				{
 					return err;
+				}
+
+				if (skip < 0)
+				{
+					return SBDF_ERROR_INVALID_SIZE;
 				}
 
 				if (fseek(f, skip, SEEK_CUR))
